@@ -363,31 +363,37 @@ func sortedKeys[V any](m map[string]V) []string {
 
 // evalDefault returns quote() of what a column of the given declared type holds after
 // `INSERT INTO x SELECT <expr>` -- the value IFNULL(col, <default>) yields for a NULL.
-func evalDefault(ctx context.Context, typ, expr string) (string, error) {
+func evalDefault(ctx context.Context, typ, expr string, strict bool) (string, error) {
+	// the typing rules of a STRICT table matter for an ANY column only
+	strict = strict && normType(typ) == "any"
 	type res struct {
 		q   string
 		err error
 	}
-	key := typ + "\x00" + expr
+	key := fmt.Sprint(strict) + typ + "\x00" + expr
 	if v, ok := defaultCache.Load(key); ok {
 		r := v.(res)
 		return r.q, r.err
 	}
-	q, err := evalDefaultUncached(ctx, typ, expr)
+	q, err := evalDefaultUncached(ctx, typ, expr, strict)
 	defaultCache.Store(key, res{q, err})
 	return q, err
 }
 
 var defaultCache sync.Map
 
-func evalDefaultUncached(ctx context.Context, typ, expr string) (string, error) {
+func evalDefaultUncached(ctx context.Context, typ, expr string, strict bool) (string, error) {
 	db, err := sql.Open("sqlite3", ":memory:")
 	if err != nil {
 		return "", err
 	}
 	defer db.Close()
 	db.SetMaxOpenConns(1)
-	if _, err := db.ExecContext(ctx, "CREATE TABLE x (c "+typ+")"); err != nil {
+	opt := ""
+	if strict {
+		opt = " STRICT"
+	}
+	if _, err := db.ExecContext(ctx, "CREATE TABLE x (c "+typ+")"+opt); err != nil {
 		return "", err
 	}
 	if _, err := db.ExecContext(ctx, "INSERT INTO x SELECT "+expr); err != nil {
